@@ -108,6 +108,48 @@ Theorem weighted_total : forall ins dv dt, Forall truth_ok ins -> exists o, weig
 Proof. exact weighted_never_raises. Qed.
 Print Assumptions weighted_total.
 
+(* STRING TRUTHS (outside the property's domain None/bool/number): FixTruth raises TypeError ... *)
+Theorem fixtruth_string_raises : forall s, FixTruth (VStr s) = Err TypeError.
+Proof. exact fixtruth_str. Qed.
+Print Assumptions fixtruth_string_raises.
+
+(* ... which escapes Priority and Trusted (FixTruth is applied to EVERY input, selected or not) ... *)
+Theorem priority_trusted_raise_on_string_truth : forall pre i post dv dt s,
+  Forall truth_ok pre -> truth i = VStr s ->
+  priority (pre ++ i :: post) dv dt = Err TypeError /\ trusted (pre ++ i :: post) dv dt = Err TypeError.
+Proof. exact string_truth_raises. Qed.
+Print Assumptions priority_trusted_raise_on_string_truth.
+
+(* ... and is caught by Weighted (only selected inputs are fixed): default output *)
+Theorem weighted_string_truth_falls_back : forall pre i post dv dt s,
+  Forall truth_ok pre -> selected i = true -> truth i = VStr s ->
+  weighted (pre ++ i :: post) dv dt = Ok (dflt dv dt).
+Proof. exact weighted_string_truth. Qed.
+Print Assumptions weighted_string_truth_falls_back.
+
+(* When every input share has at least one data field (in particular whenever every input has a
+   value, as the property quantifies) the winner's own (value, fixed truth) is the output: the
+   `if inputmax:` fallback for a zero-field winner is unreachable inside the property's domain. *)
+Theorem priority_outputs_winner_when_inputs_have_fields : forall ins dv dt,
+  Forall truth_ok ins -> (forall i, In i ins -> nonempty i = true) ->
+  (exists pre w post, ins = pre ++ w :: post /\ pqual dt w /\
+      (forall j, In j pre -> pqual dt j -> imp j < imp w) /\
+      (forall j, In j post -> pqual dt j -> imp j <= imp w) /\
+      priority ins dv dt = Ok (value w, VFlt (ftr w)))
+  \/ ((forall j, In j ins -> ~ pqual dt j) /\ priority ins dv dt = Ok (dflt dv dt)).
+Proof. exact priority_nonempty. Qed.
+Print Assumptions priority_outputs_winner_when_inputs_have_fields.
+
+Theorem trusted_outputs_winner_when_inputs_have_fields : forall ins dv dt,
+  Forall truth_ok ins -> 0 <= dt -> (forall i, In i ins -> nonempty i = true) ->
+  (exists pre w post, ins = pre ++ w :: post /\ suff dt w = true /\
+      (forall j, In j pre -> suff dt j = true -> lexlt (ftr j) (imp j) (ftr w) (imp w)) /\
+      (forall j, In j post -> suff dt j = true -> ~ lexlt (ftr w) (imp w) (ftr j) (imp j)) /\
+      trusted ins dv dt = Ok (value w, VFlt (ftr w)))
+  \/ ((forall j, In j ins -> suff dt j = false) /\ trusted ins dv dt = Ok (dflt dv dt)).
+Proof. exact trusted_nonempty. Qed.
+Print Assumptions trusted_outputs_winner_when_inputs_have_fields.
+
 (* ---- non-vacuity ------------------------------------------------------------------ *)
 
 (* truth tie between inputs 1 and 2, broken by importance (the unfixed code raises NameError here) *)
